@@ -6,13 +6,18 @@
    a value computed for a node the type checker accepted has the inferred type, and the
    computation ends in a value or a runtime error, never in a panic.
 
-   Proved per operation (preserves o) for the operations of [proved_op]; the statement for all
-   operations is C09_full.  Hypotheses: dependency values have the dependency types, which are
-   node types (valid, u64 dimensions); u64 parameters of the operation are non-negative. *)
+   Proved per operation (preserves o), one lemma each, for every operation eval_node computes
+   (C09_full); the operations whose value is supplied from outside (Input, Random, PRF, Call,
+   Iterate, Join, Sort, ... see Eval.from_tape) have no evaluation model here and enter the graph
+   theorem through the hypothesis that the supplied values have the declared types - hence the
+   graph theorem keeps the name _partial.  Hypotheses: dependency values have the dependency
+   types, which are node types (valid, u64 dimensions); u64 parameters of the operation are
+   non-negative. *)
 From CC Require Import Base.Prelude Base.Scalar Base.Ty Base.Shape Graph.Value Graph.IR Graph.Eval
   Graph.Typing Proofs.EvalProofs Proofs.TypingBase Proofs.TypingTuple Proofs.TypingArith
   Proofs.TypingBits Proofs.TypingReduce Proofs.TypingStruct Proofs.TypingStack Proofs.TypingPermute
-  Proofs.TypingZip Proofs.TypingPermOps Proofs.TypingSegment Proofs.TypingProofs.
+  Proofs.TypingZip Proofs.TypingPermOps Proofs.TypingSegment Proofs.TypingReshape Proofs.TypingConcat
+  Proofs.TypingSlice Proofs.TypingDot Proofs.TypingMatmul Proofs.TypingGemm Proofs.TypingProofs.
 
 (* The full statement: for every operation the evaluator computes itself (everything except the
    values supplied from outside: Input, Random, PRF, ... see Eval.from_tape). *)
@@ -103,20 +108,44 @@ Proof.
     | apply preserves_apply_permutation].
 Qed.
 
+Theorem C09_preservation_slicing_reshaping :
+  (forall sl, C09_statement (OGetSlice sl)) /\ (forall t, C09_statement (OReshape t)) /\
+  (forall axis, C09_statement (OConcatenate axis)).
+Proof.
+  repeat split; intros; first [apply preserves_get_slice | apply preserves_reshape | apply preserves_concatenate].
+Qed.
+
+Theorem C09_preservation_linear_algebra :
+  C09_statement ODot /\ C09_statement OMatmul /\ (forall ta tb, C09_statement (OGemm ta tb)).
+Proof. repeat split; intros; first [apply preserves_dot | apply preserves_matmul | apply preserves_gemm]. Qed.
+
 (* --- combined ---------------------------------------------------------------------------- *)
 Theorem C09_preservation_partial : forall o, proved_op o = true -> C09_statement o.
 Proof. exact preservation_partial. Qed.
 
-(* graphs whose computed operations are all in the proved set: every node value has its node
-   type, and evaluation returns values or a runtime error, never a panic *)
+(* the per-node statement for every operation the evaluator model computes *)
+Theorem C09_preservation : C09_full.
+Proof.
+  intros o ts t vs Ht Hu Hi HF. apply (preservation_partial o (computed_ops_proved o Ht) ts t vs Hu Hi HF).
+Qed.
+
+(* Fully inlined graphs over ALL operations: if every computed node's type is the type inferred
+   from its dependencies' types, node types are valid u64 types and the values supplied from
+   outside (inputs - "every input matching the declared input types" - and the results of the
+   operations not modelled by eval_node) have the declared node types, then every node value has
+   its node type and evaluation returns values or a runtime error, never a panic.
+   _partial: the typing of the supplied values is a hypothesis; Call/Iterate are not inlined here. *)
 Theorem C09_eval_graph_typed_partial : forall tape nodes,
-  graph_typed proved_op tape nodes ->
+  graph_typed (fun o => negb (from_tape o)) tape nodes ->
   match eval_graph_nodes nodes tape with
   | Ok vals => Forall2 (fun v t => has_type v t = true) vals (map n_ty nodes)
   | Err => True
   | Panic | OutOfFuel => False
   end.
-Proof. intros. apply (eval_graph_typed proved_op); [exact preservation_partial| assumption]. Qed.
+Proof.
+  intros. apply (eval_graph_typed (fun o => negb (from_tape o))); [|assumption].
+  intros o Ho. apply preservation_partial, computed_ops_proved. now apply negb_true_iff.
+Qed.
 
 (* --- non-vacuity ------------------------------------------------------------------------- *)
 (* a broadcasting Add: [2;1;3] + [3] on I8, accepted with type [2;1;3] and evaluated to a value *)
@@ -143,6 +172,25 @@ Example C09_example_gather_runtime_error :
   eval_node (OGather 0) [TArray [3] I16; TArray [2] U64] (TArray [2] I16) [VArr [7; 8; 9]; VArr [2; 0]] = Ok (VArr [9; 7]).
 Proof. repeat split; vm_compute; reflexivity. Qed.
 
+(* Matmul with a rank-1 operand and a broadcast batch dimension; Gemm with batch dimension 1 *)
+Example C09_example_matmul :
+  infer OMatmul [TArray [2; 1; 2] U8; TArray [2] U8] = Ok (TArray [2; 1] U8) /\
+  eval_node OMatmul [TArray [2; 1; 2] U8; TArray [2] U8] (TArray [2; 1] U8)
+            [VArr [1; 2; 3; 4]; VArr [10; 100]] = Ok (VArr [210; 174]).
+Proof. split; vm_compute; reflexivity. Qed.
+Example C09_example_gemm :
+  infer (OGemm false true) [TArray [1; 2; 2] I8; TArray [2; 1; 2] I8] = Ok (TArray [2; 2; 1] I8) /\
+  match eval_node (OGemm false true) [TArray [1; 2; 2] I8; TArray [2; 1; 2] I8] (TArray [2; 2; 1] I8)
+                  [VArr [1; 2; 3; 4]; VArr [1; 1; 255; 0]] with
+  | Ok v => has_type v (TArray [2; 2; 1] I8) = true | _ => False end.
+Proof. split; vm_compute; reflexivity. Qed.
+(* a negative-step slice *)
+Example C09_example_get_slice :
+  infer (OGetSlice [SSub None None (Some (-2))]) [TArray [5] U16] = Ok (TArray [3] U16) /\
+  eval_node (OGetSlice [SSub None None (Some (-2))]) [TArray [5] U16] (TArray [3] U16) [VArr [0; 1; 2; 3; 4]]
+  = Ok (VArr [4; 2; 0]).
+Proof. split; vm_compute; reflexivity. Qed.
+
 (* rejection at node-addition time *)
 Example C09_example_reject :
   infer OAdd [TArray [2; 3] I8; TArray [2] I8] = Err /\
@@ -159,7 +207,8 @@ Definition C09_example_nodes : list node :=
     mkNode OCreateTuple [2; 1] [] [] (TTuple [TArray [2] U8; TScalar U8]);
     mkNode (OTupleGet 0) [3] [] [] (TArray [2] U8) ].
 Definition C09_example_tape := tape_of_list [(0, VArr [1; 7])].
-Example C09_example_graph_typed : graph_typed proved_op C09_example_tape C09_example_nodes.
+Example C09_example_graph_typed :
+  graph_typed (fun o => negb (from_tape o)) C09_example_tape C09_example_nodes.
 Proof.
   unfold graph_typed, C09_example_nodes. cbn [graph_typed_from from_tape n_op n_ty n_deps].
   repeat split; try reflexivity.
@@ -182,5 +231,8 @@ Print Assumptions C09_preservation_bits.
 Print Assumptions C09_preservation_reductions.
 Print Assumptions C09_preservation_structural.
 Print Assumptions C09_preservation_index_ops.
+Print Assumptions C09_preservation_slicing_reshaping.
+Print Assumptions C09_preservation_linear_algebra.
 Print Assumptions C09_preservation_partial.
+Print Assumptions C09_preservation.
 Print Assumptions C09_eval_graph_typed_partial.
